@@ -460,11 +460,13 @@ def pearsonr(X, Y, Z, data, boolean=True, **kwargs):
 
     # Step 3: If Z is non-empty, use linear regression to compute residuals and test independence on it.
     else:
-        X_coef = np.linalg.lstsq(data.loc[:, Z], data.loc[:, X], rcond=None)[0]
-        Y_coef = np.linalg.lstsq(data.loc[:, Z], data.loc[:, Y], rcond=None)[0]
+        # Least squares with an intercept, so that the residuals are the usual regression residuals.
+        design = np.column_stack([np.ones(data.shape[0]), data.loc[:, Z].values])
+        X_coef = np.linalg.lstsq(design, data.loc[:, X].values, rcond=None)[0]
+        Y_coef = np.linalg.lstsq(design, data.loc[:, Y].values, rcond=None)[0]
 
-        residual_X = data.loc[:, X] - data.loc[:, Z].dot(X_coef)
-        residual_Y = data.loc[:, Y] - data.loc[:, Z].dot(Y_coef)
+        residual_X = data.loc[:, X].values - design.dot(X_coef)
+        residual_Y = data.loc[:, Y].values - design.dot(Y_coef)
         coef, p_value = stats.pearsonr(residual_X, residual_Y)
 
     if boolean:
